@@ -130,8 +130,16 @@ def execute(cases_, tier, seed):
             if o["status"] != "ok":
                 # every op is a supported schema whose precondition holds
                 if i == len(h) - 1:
-                    res.violations.append(Violation(c["key"], "op-" + o["status"], "%s: op %s %s: %s" % (h, name, o["status"], o.get("msg")), c,
-                                                    expected="ok", observed=o, features=dict(feats, op=name, readd=_readds(h[:i + 1]))))
+                    # input-derived classification: does this op re-add definitions, or define a name an earlier hint/inline type took?
+                    newly = {pascal(n) for n in DEFINES.get(name, ())}
+                    if newly & {pascal(n) for n in _readded_names(h[:i + 1])}:
+                        cls = ":readded-definition"
+                    elif newly & _late_defined(h[:i + 1]):
+                        cls = ":definition-after-same-named-type"
+                    else:
+                        cls = ""
+                    res.violations.append(Violation(c["key"], "op-" + o["status"] + cls, "%s: op %s %s: %s" % (h, name, o["status"], o.get("msg")), c,
+                                                    expected="ok", observed=o, features=dict(feats, op=name)))
                 dead = True
                 break
             snap = o["snapshot"]
